@@ -7,7 +7,7 @@
     valid alone; verdict invariant under permutation; a declared conflict rejects every value; the failing chain's error
     code is the code of a member that fails alone.
 (B) documents: generated schema files (POLICY UNKNOWN_FIELDS in REJECT/WARN/IGNORE, FIELDS from the chain pools) on the
-    schema search path x instances that omit / add / mistype fields, through Validator.validate and octave_validate.
+    schema search path x instances that omit / add / duplicate / mistype fields, through Validator.validate and octave_validate.
     Oracle: missing REQ field => error naming it; unknown field => REJECT: error naming it, WARN: only a warning and no
     change of status, IGNORE: nothing; field verdicts agree with the reference evaluator.
 """
@@ -29,7 +29,7 @@ RULE = (
     "12 REGEX anchored at both ends each with a hand-written predicate, 6 RANGE, MIN/MAX_LENGTH 0-3, DATE, ISO8601) x a "
     "~150-value boundary pool (enum prefixes, bounds +-1 and +-eps, bools, numeric text, lists 0-4, dict, None, literal "
     "zones, real/impossible/leap dates, the four ISO 8601 forms valid and invalid); plus Hypothesis-sampled chains of 3-4 "
-    "members with all permutations. (B) Hypothesis schemas (3 policies x 1-4 fields) x instances (omit/add/mistype) through "
+    "members with all permutations. (B) Hypothesis schemas (3 policies x 1-4 fields) x instances (omit/add/duplicate/mistype; a duplicated field is asserted only when all its occurrences agree) through "
     "Validator and octave_validate with the schema planted in <cwd>/specs/schemas. Non-trivial (A): chain of >=2 members "
     "with a parameterised member and a value on which the members do not all agree; (B): instance with a missing required or "
     "an unknown field. Distinct by (chain, value) resp. (schema, instance)."
@@ -207,24 +207,36 @@ def instance_text(name, assigns):
 def expected_doc(policy, fields, assigns):
     """Expected (errors, warnings) as sets of (kind, field) from the documented semantics; unasserted fields listed."""
     errs, warns, unasserted = set(), set(), set()
-    present = {}
+    present: dict = {}
     for k, (src, v) in assigns:
-        present.setdefault(k, v)
+        present.setdefault(k, []).append(v)
     declared = dict(fields)
+
+    def one(fname, chain, v):
+        """'missing' | 'bad' | 'ok' | None (documentation does not fix the answer)"""
+        if v is None:
+            return "missing" if "REQ" in chain else "ok"
+        if R.declared_conflict(chain):
+            return "bad"
+        verdicts = [R.ref_member(m, v) for m in chain]
+        if any(x is False for x in verdicts):
+            return "bad"
+        return None if any(x is None for x in verdicts) else "ok"
+
     for fname, chain in fields:
-        if fname not in present or present[fname] is None:
+        if fname not in present:
             if "REQ" in chain:
                 errs.add(("missing-or-empty", fname))
             continue
-        v = present[fname]
-        if R.declared_conflict(chain):
-            errs.add(("constraint", fname))
-            continue
-        verdicts = [R.ref_member(m, v) for m in chain]
-        if any(x is False for x in verdicts):
-            errs.add(("constraint", fname))
-        elif any(x is None for x in verdicts):
+        # a duplicated field: the statement does not say which occurrence counts, so a verdict is asserted only when
+        # every occurrence gives the same one
+        vs = {one(fname, chain, v) for v in present[fname]}
+        if len(vs) != 1 or None in vs:
             unasserted.add(fname)
+        elif vs == {"missing"}:
+            errs.add(("missing-or-empty", fname))
+        elif vs == {"bad"}:
+            errs.add(("constraint", fname))
     for k in present:
         if k not in declared:
             if policy == "REJECT":
@@ -276,7 +288,7 @@ def check_doc(case, root: str):
                     fails.append((f"C08:unlisted:doc:{view}:missing-error:{kindw}:{policy if kindw == 'unknown' else ''}",
                                   f"{view}: no error names field {f!r} ({kindw}); got errors={sorted(got_e)} warnings={sorted(got_w)} | schema={schema_text(name, policy, fields)!r} | instance={itext!r}"))
             for g in sorted(got_e):
-                if g[1] in unasserted or dup_keys:
+                if g[1] in unasserted:
                     continue
                 if not any(f == g[1] for _, f in want_e):
                     fails.append((f"C08:unlisted:doc:{view}:unexpected-error:{g[0]}:{policy}",
@@ -290,7 +302,7 @@ def check_doc(case, root: str):
                 for k2 in {k for k, _ in assigns} - {f for f, _ in fields}:
                     if any(g[1] == k2 for g in got_e | got_w):
                         fails.append((f"C08:unlisted:doc:{view}:ignore-policy-reports", f"{view}: IGNORE policy reports unknown field {k2!r}: {sorted(got_e | got_w)}"))
-            if status is not None and not unasserted and not dup_keys:
+            if status is not None and not unasserted:
                 blocking = {(k_, f) for k_, f in want_e}
                 want_status = "INVALID" if blocking else "VALIDATED"
                 if status != want_status:
@@ -323,8 +335,9 @@ def doc_strategy():
     from hypothesis import strategies as hs
 
     fields = hs.lists(hs.tuples(hs.sampled_from(FIELD_NAMES), hs.sampled_from(DOC_CHAINS)), min_size=1, max_size=4, unique_by=lambda t: t[0])
-    assigns = hs.lists(hs.tuples(hs.sampled_from(FIELD_NAMES + ["EXTRA", "Other_1"]), hs.integers(0, len(INSTANCE_VALUES) - 1)),
-                       min_size=0, max_size=5, unique_by=lambda t: t[0])
+    pair = hs.tuples(hs.sampled_from(FIELD_NAMES + ["EXTRA", "Other_1"]), hs.integers(0, len(INSTANCE_VALUES) - 1))
+    # three in four instances have unique keys; the fourth may repeat declared and unknown fields
+    assigns = hs.one_of(*[hs.lists(pair, min_size=0, max_size=5, unique_by=lambda t: t[0])] * 3, hs.lists(pair, min_size=2, max_size=6))
     return hs.builds(lambda n, p, f, a: {"kind": "doc", "name": n, "policy": p, "fields": [list(x) for x in f], "assigns": [list(x) for x in a]},
                      hs.sampled_from(["GEN_SCHEMA", "WIDGET", "AB_C9"]), hs.sampled_from(["REJECT", "WARN", "IGNORE"]), fields, assigns)
 
@@ -336,7 +349,7 @@ def shard_docs(ctx: Ctx, sh: int, nshards: int, n: int) -> Stats:
             fails, nt = check_doc(case, root)
             st.case({"schema": schema_text(case["name"], case["policy"], case["fields"]),
                      "instance": instance_text(case["name"], [(k, INSTANCE_VALUES[i][0]) for k, i in case["assigns"]])},
-                    nontrivial=nt, labels=["doc_policy_" + case["policy"]])
+                    nontrivial=nt, labels=["doc_policy_" + case["policy"]] + (["doc_duplicate_fields"] if len({k for k, _ in case["assigns"]}) != len(case["assigns"]) else []))
             for sig, det in fails:
                 st.fail(sig, case, det)
 
